@@ -106,3 +106,95 @@ pub fn lex_single(text: &[u8]) -> Option<Token<'_>> {
     }
     Some(first)
 }
+
+/// Every parameter target type the crate converts tokens into.
+#[derive(Clone, Copy, Debug, Serialize, Deserialize, Hash, PartialEq, Eq)]
+pub enum Target {
+    Int(IntTy),
+    F32,
+    F64,
+    Bool,
+    Bytes,
+    Str,
+    Arb,
+    Chr,
+    Expr,
+    NumList,
+    ChanList,
+}
+
+#[derive(Clone, Debug, PartialEq)]
+pub enum Out {
+    Int(i128),
+    F32(u32),
+    F64(u64),
+    Bool(bool),
+    Bytes(Vec<u8>),
+    NumList,
+    ChanList,
+}
+
+impl Target {
+    pub const ALL: [Target; 20] = [
+        Target::Int(IntTy::I8),
+        Target::Int(IntTy::U8),
+        Target::Int(IntTy::I16),
+        Target::Int(IntTy::U16),
+        Target::Int(IntTy::I32),
+        Target::Int(IntTy::U32),
+        Target::Int(IntTy::I64),
+        Target::Int(IntTy::U64),
+        Target::Int(IntTy::Isize),
+        Target::Int(IntTy::Usize),
+        Target::F32,
+        Target::F64,
+        Target::Bool,
+        Target::Bytes,
+        Target::Str,
+        Target::Arb,
+        Target::Chr,
+        Target::Expr,
+        Target::NumList,
+        Target::ChanList,
+    ];
+
+    pub fn convert(self, tok: Token) -> Result<Out, Error> {
+        use scpi::parser::expression::{channel_list::ChannelList, numeric_list::NumericList};
+        use scpi::parser::format::{Arbitrary, Character, Expression};
+        Ok(match self {
+            Target::Int(t) => Out::Int(t.convert(tok)?),
+            Target::F32 => Out::F32(f32::try_from(tok)?.to_bits()),
+            Target::F64 => Out::F64(f64::try_from(tok)?.to_bits()),
+            Target::Bool => Out::Bool(bool::try_from(tok)?),
+            Target::Bytes => Out::Bytes(<&[u8]>::try_from(tok)?.to_vec()),
+            Target::Str => Out::Bytes(<&str>::try_from(tok)?.as_bytes().to_vec()),
+            Target::Arb => Out::Bytes(Arbitrary::try_from(tok)?.0.to_vec()),
+            Target::Chr => Out::Bytes(Character::try_from(tok)?.0.to_vec()),
+            Target::Expr => Out::Bytes(Expression::try_from(tok)?.0.to_vec()),
+            Target::NumList => {
+                let _ = NumericList::try_from(tok)?;
+                Out::NumList
+            }
+            Target::ChanList => {
+                let _ = ChannelList::try_from(tok)?;
+                Out::ChanList
+            }
+        })
+    }
+}
+
+/// The seven data element kinds (decimal with suffix counted separately).
+#[derive(Clone, Copy, Debug, Serialize, Deserialize, Hash, PartialEq, Eq)]
+pub enum Kind {
+    Chr,
+    Dec,
+    DecSuffix,
+    NonDec,
+    Str,
+    Block,
+    Expr,
+}
+
+impl Kind {
+    pub const ALL: [Kind; 7] = [Kind::Chr, Kind::Dec, Kind::DecSuffix, Kind::NonDec, Kind::Str, Kind::Block, Kind::Expr];
+}
